@@ -16,6 +16,15 @@ CHECKS = {
             'small alphabet covers all branch combinations.',
             'Counts above 3, more than 3 warning types and lists longer than the bound are not explored; the '
             'combination the property leaves unspecified is not generated.', '§4 C08'),
+    'C17': ('B', 'bounded exhaustive enumeration of systems x sequences x selectors on the real processors vs. the documented reconciliation; all DSSP strings up to a length bound vs. a run-length reference model',
+            'model_checking',
+            'Every sequence of <=3 (thorough 4) molecules over {selected, unselected} x {1,2,3 residues} x 3 node-key layouts, every '
+            'sequence length 0..total+1 (str and list), three selectors, is run through the real AnnotateResidues and compared with the '
+            'documented reconciliation and per-residue placement; the same systems go through AnnotateResidues/AnnotateDSSP(callable) + '
+            'AnnotateMartiniSecondaryStructures; convert_dssp_to_martini is run on ALL strings over {H,G,E,C} up to length 10 (thorough: '
+            '8 letters to length 7, binary to 18) against a run-length model of the documented helix rules.',
+            'Residue order within a molecule is taken as ascending lowest node key; molecules larger than 3 residues and DSSP strings '
+            'longer than the bound are outside the claim (the helix rules are local to a run and runs up to 18 are covered).', '§4 C17'),
 }
 
 NOT_YET = 'check not built yet in this session (planned, see DESIGN.md §4); no claim is made'
